@@ -57,7 +57,7 @@ type relayCfg struct {
 }
 
 type relayObs struct {
-	outN, errN int  // complete records seen per stream
+	outN, errN int  // bytes seen per stream
 	ordered    bool // per-stream order intact
 	garbage    bool
 	goErr      error
@@ -127,37 +127,25 @@ func relayRun(chatty, scratch string, idx int, k relayCfg) relayObs {
 		o.timeout = true
 		return o
 	}
-	// take the records apart
-	nextO, nextE := 1, 1
-	for _, line := range bytes.Split(got.Bytes(), []byte("\n")) {
-		if len(line) == 0 {
-			continue
-		}
-		var tag byte
-		var n int
-		if len(line) < 10 || (line[0] != 'O' && line[0] != 'E') {
-			o.garbage = true
-			continue
-		}
-		tag = line[0]
-		if _, err := fmt.Sscanf(string(line[1:9]), "%08d", &n); err != nil || len(line) != max(k.size, 11)-1 {
-			o.garbage = true
-			continue
-		}
-		if tag == 'O' {
-			if n != nextO {
+	// take the merged stream apart: upper case is stdout, lower case stderr; every byte encodes its offset
+	var so, se int
+	for _, c := range got.Bytes() {
+		switch {
+		case c >= 'A' && c <= 'Z':
+			if c != 'A'+byte((so*7+so/26)%26) {
 				o.ordered = false
 			}
-			nextO = n + 1
-			o.outN++
-		} else {
-			if n != nextE {
+			so++
+		case c >= 'a' && c <= 'z':
+			if c != 'a'+byte((se*11+se/26)%26) {
 				o.ordered = false
 			}
-			nextE = n + 1
-			o.errN++
+			se++
+		default:
+			o.garbage = true
 		}
 	}
+	o.outN, o.errN = so, se
 	if k.stdin {
 		b, _ := os.ReadFile(logf)
 		o.stdinOK = bytes.Equal(b, stdinData)
@@ -276,11 +264,11 @@ CHECK_DEADLOCK FALSE
 		k, o := x.k, x.o
 		d := map[string]any{"stdout_chunks": k.c.Nout, "stderr_chunks": k.c.Nerr, "chunk_size": k.size, "exit_status": k.c.Status, "consumer": k.pace,
 			"stdin_used": k.stdin, "exit_delay": k.delay.String(), "interleaved": k.inter,
-			"received_stdout_chunks": o.outN, "received_stderr_chunks": o.errN, "go_error": fmt.Sprint(o.goErr), "read_error": fmt.Sprint(o.readErr)}
+			"received_stdout_bytes": o.outN, "received_stderr_bytes": o.errN, "go_error": fmt.Sprint(o.goErr), "read_error": fmt.Sprint(o.readErr)}
 		switch {
 		case o.timeout:
 			r.Violation("stream-never-ends", d)
-		case o.outN != k.c.Nout || o.errN != k.c.Nerr:
+		case o.outN != k.c.Nout*k.size || o.errN != k.c.Nerr*k.size:
 			r.Violation("output-lost-before-eof", d)
 		case !o.ordered || o.garbage:
 			r.Violation("output-reordered-or-damaged", d)
